@@ -838,7 +838,7 @@ def fam_invalid(cfg, rng):
         elif c == 'repeat':
             h.emit('repeat h2 %s %d' % (h.val(), i))
         else:
-            h.emit('b_new %d %d' % (rng.choice([62, 63, 64, USIZE_MAX, cfg.depth]), 0))
+            h.emit('b_new %d %d' % (rng.choice([62, 63, 64, USIZE_MAX, cfg.depth, 2 ** 32, 2 ** 32 + 5, 2 ** 40]), 0))
         h.emit('len h0')
     h.emit('apply h0')
     h.emit('hash h0')
@@ -849,7 +849,8 @@ def fam_builder(cfg, rng, d=None, k=None):
     h = H(cfg, rng, 'builder')
     pd = cfg.pd
     if d is None:
-        d = rng.choice([0, 1, 2, 3, 4, 5, 6, rng.randint(0, 10), 20, 40, 63 - pd - 1, 63 - pd, 64 - pd, 64, USIZE_MAX, USIZE_MAX - 1, USIZE_MAX - pd, 2 ** 63])
+        d = rng.choice([0, 1, 2, 3, 4, 5, 6, rng.randint(0, 10), 20, 40, 63 - pd - 1, 63 - pd, 64 - pd, 64, USIZE_MAX, USIZE_MAX - 1, USIZE_MAX - pd, 2 ** 63,
+                        2 ** 32, 2 ** 32 + 1, 2 ** 32 - pd, 2 ** 32 + 40, 2 ** 31, 2 ** 33 + 3, 2 ** 48, 65, 100, 255, 256])
     capd = 1 << min(d + pd, 62)
     if d > 64:
         k = rng.choice([0, 1, 2])
